@@ -80,10 +80,25 @@
 (*              wrong        another decodable wrong key                   *)
 (*              swap         THE epoch secret key of the partner entry's   *)
 (*                           identity (partner as for shares; without one: *)
-(*                           a wrong key)                                  *)
+(*                           the key of an identity outside the message)   *)
 (*              badlen, undecodable  as above                              *)
 (* m.extra     "none" | "gnosis" | "service" | "optimism" (oneof extra)    *)
 (*                                                                         *)
+(* hist   what the SAME handler objects did before this delivery:          *)
+(*        "fresh"  nothing;  "stale"  they accepted a message of the same  *)
+(*        type naming the same set while that set's newest successful key  *)
+(*        generation had the OPPOSITE key material (recv.eonkey): the key  *)
+(*        generation of the set was restarted and succeeded again with a   *)
+(*        new eon key between the two deliveries.  The validators are      *)
+(*        stateless -- what they decide depends on the database at the     *)
+(*        time of the call only -- so hist enters no operator below; an    *)
+(*        implementation that memoises per eon field behaves differently.  *)
+(*                                                                         *)
+(* recv.eonkey which trusted-dealer key material the newest successful key *)
+(*             generation of every set used: "main" (share kind valid /    *)
+(*             key kind valid are the genuine tokens) or "other" (share    *)
+(*             kind otherEon / key kind wrong are the genuine tokens, and  *)
+(*             "valid" ones are tokens of a superseded eon key)            *)
 (* recv.layout "rich": the database holds one config per set class;        *)
 (*             "solo": only the config the message names                   *)
 (* recv.stored keys stored under the named eon: "none", "wrong1" (W for    *)
@@ -156,8 +171,9 @@ Decodes(k)       == k # "undecodable"           \* EpochSecretKey(Share).Unmarsh
 (* the checks are made PER ENTRY, each token against its own identity: a token made for another
    identity of the same message ("swap") fails like any other foreign token, although the sum
    of all tokens of the message may equal the sum of the genuine ones *)
-ShareVerifies(k) == k = "valid"                 \* VerifyEpochSecretKeyShare against PublicKeyShares[snd]
-KeyVerifies(k)   == k = "valid"                 \* VerifyEpochSecretKey against the eon public key
+(* against the DKG result read from the database in THIS call *)
+ShareVerifies(k, recv) == k = (IF recv.eonkey = "main" THEN "valid" ELSE "otherEon")   \* VerifyEpochSecretKeyShare, PublicKeyShares[snd]
+KeyVerifies(k, recv)   == k = (IF recv.eonkey = "main" THEN "valid" ELSE "wrong")      \* VerifyEpochSecretKey, eon public key
 
 Descends(q, i) == i > 1 /\ q[i].r < q[i - 1].r  \* bytes.Compare(id[i], id[i-1]) < 0
 
@@ -176,21 +192,21 @@ Prologue(m) ==
     ELSE ""
 
 (* checkKeyShares *)
-RECURSIVE ShareLoop(_, _)
-ShareLoop(m, i) ==
+RECURSIVE ShareLoop(_, _, _)
+ShareLoop(m, recv, i) ==
     IF i > Len(m.entries) THEN Accept
     ELSE IF ~Decodes(m.entries[i].k) THEN Out("reject", "sharedecode")
     ELSE IF SenderCheck = "asfound" /\ m.snd >= N THEN Out("panic", "index")
-    ELSE IF ~ShareVerifies(m.entries[i].k) THEN Out("reject", "verify")
+    ELSE IF ~ShareVerifies(m.entries[i].k, recv) THEN Out("reject", "verify")
     ELSE IF Descends(m.entries, i) THEN Out("reject", "order")
-    ELSE ShareLoop(m, i + 1)
+    ELSE ShareLoop(m, recv, i + 1)
 
-CheckKeyShares(m) ==
+CheckKeyShares(m, recv) ==
     IF SenderCheck = "checked" /\ m.snd >= N THEN Out("reject", "senderidx")
-    ELSE ShareLoop(m, 1)
+    ELSE ShareLoop(m, recv, 1)
 
-ValidateShares(m) ==
-    LET p == Prologue(m) IN IF p # "" THEN Out("reject", p) ELSE CheckKeyShares(m)
+ValidateShares(m, recv) ==
+    LET p == Prologue(m) IN IF p # "" THEN Out("reject", p) ELSE CheckKeyShares(m, recv)
 
 (* checkKeysErrors *)
 RECURSIVE KeyLoop(_, _, _)
@@ -199,7 +215,7 @@ KeyLoop(m, recv, i) ==
     ELSE IF ~Decodes(m.entries[i].k) THEN Out("reject", "keydecode")
     ELSE IF Descends(m.entries, i) THEN Out("reject", "order")
     ELSE IF StoredKind(recv, m.entries[i].r) = m.entries[i].k THEN KeyLoop(m, recv, i + 1)   \* bytes.Equal(stored)
-    ELSE IF ~KeyVerifies(m.entries[i].k) THEN Out("reject", "keyinvalid")
+    ELSE IF ~KeyVerifies(m.entries[i].k, recv) THEN Out("reject", "keyinvalid")
     ELSE KeyLoop(m, recv, i + 1)
 
 ValidateKeys(m, recv) ==
@@ -228,7 +244,7 @@ Envelope(m) ==
     ELSE IF \E i \in DOMAIN m.entries : ~Decodes(m.entries[i].k) THEN "decode"
     ELSE IF ~m.typeOk THEN "type"
     ELSE ""
-CoreValidator(m, recv) == IF m.mt = "shares" THEN ValidateShares(m) ELSE ValidateKeys(m, recv)
+CoreValidator(m, recv) == IF m.mt = "shares" THEN ValidateShares(m, recv) ELSE ValidateKeys(m, recv)
 
 (* GetCombinedValidator: the validators of the topic in registration order, the first reject
    decides (every one of them starts with the same envelope checks) *)
